@@ -225,6 +225,19 @@ CHECKS["C04"] = dict(
     design="3/C04",
 )
 
+CHECKS["C12"] = dict(
+    technique="symbolic tensor execution of the real boundary / compressed contraction schemes on symbolic lattices with QR / SVD / eigh contract stubs; exactness by linear Nullstellensatz certificates (hypothesis elimination + polynomial reduction, checked by z3 QF_LRA) against an independent sum-of-products value; bond-cap goals on shapes with contract-free stubs; environments by sandwich identities",
+    text="Bounded symbolic model checking: on flat 2D lattices 3x2 ... 4x3 (3x3 every bond 2, 4x4 numerically), layered <psi|psi> networks, 3x2x2 3D lattices, periodic 4x3 lattices and "
+         "small arbitrary graphs (every connected contraction path of a 4-ring), with the bond cap at or above the exact bond and cutoff 0, every boundary contraction side / sequence / mode / "
+         "canonize / equalize option, the direction wrappers, HOTRG / CTMRG on product-cut instances, contract_compressed, contract_around and the arbitrary-geometry compressors return the "
+         "exact contraction value for all entry values; every stored row / column / plaquette environment combined with the part it excludes contracts to the whole; with a cap below the "
+         "exact bond every compressed bond is within the cap after every step and in the network handed over by final_contract=False.",
+    note="Trusted: z3, qv engines, LAPACK contracts (positive singular values / Gram spectra), max-abs factor = arbitrary positive factor. Numeric cross-run only: projector-type schemes on "
+         "instances whose compressed cuts carry bond 2 (their building blocks are certified symbolically), schemes iterating to a tolerance, contract_compressed where a compression meets a "
+         "rank-2 bond. Outside: non-zero cutoffs, quality of truncated results, hyper-indexed networks, lattices beyond 4x4 / 4x2x2, bond > 2.",
+    design="3/C12",
+)
+
 NA = {}
 
 
